@@ -425,13 +425,29 @@ func isBisyncControlCommand(cmd bisyncAofCommand) bool {
 	return touchesBisyncNamespace(cmd)
 }
 
+func isBisyncMarkerExpiryCommand(cmd bisyncAofCommand) bool {
+	// Redis 在写命令访问到“已过期但尚未被回收”的 key 时，会先把它删除，
+	// 并把 DEL/UNLINK 传播在触发它的写命令之前（同一个 MULTI/EXEC 内）。
+	switch strings.ToLower(cmd.Cmd) {
+	case "del", "unlink":
+		return len(cmd.Args) == 1 && checkpoint.IsBisyncMarkerKey(util.BytesToString(cmd.Args[0]))
+	}
+	return false
+}
+
 func isBisyncMirroredTransaction(cmds []bisyncAofCommand) bool {
 	// GunYu 自己独占 bisync namespace，因此 mirrored transaction 的最小判定
 	// 只需要确认事务首命令写入 marker。
-	if len(cmds) == 0 {
-		return false
+	// 上一个 marker 过期（TTL 到期但还没被主动回收）时，对端写入新 marker 会让 Redis
+	// 在 SET marker 之前先传播一条 DEL/UNLINK marker，这里要先跳过这些过期删除，
+	// 否则整笔镜像事务会被当成业务事务再回放回去。
+	for _, cmd := range cmds {
+		if isBisyncMarkerExpiryCommand(cmd) {
+			continue
+		}
+		return isBisyncMarkerCommand(cmd)
 	}
-	return isBisyncMarkerCommand(cmds[0])
+	return false
 }
 
 func bisyncTxnDebugSummary(cmds []bisyncAofCommand) string {
